@@ -51,6 +51,12 @@ def streams(tier, seed):
             names = sorted({r["name"] for n, _ in H._nodes(c["routine"]) for r in n["resources"]})
             if names:
                 c["derived_none"] = rng.sample(names, min(len(names), rng.randint(1, 2)))
+    for c in cases:
+        if rng.random() < 0.06 and not c.get("derived_leaf"):
+            withres = [(path, nd) for nd, path in H._nodes(c["routine"]) if nd["resources"]]
+            if withres:
+                path, nd = rng.choice(withres)
+                c["null_resource"] = [list(path), rng.choice(nd["resources"])["name"]]
     return [c01.mk_stream(cases, "check_structure")]
 
 
